@@ -175,7 +175,7 @@ def text_strategy(profile):
     frag = st.one_of(
         st.text(C19_ALPHABET, min_size=1, max_size=10),
         st.sampled_from(["{", "}", "}}", "%}", "#}", "{!", "}}}", "{ {", "\\", "\\n", "'''", '"""', "\n", "  \n  ",
-                         " \t ", "<pre>", "#", "%", "!", "{}", "\n\n", "x y"]),
+                         " \t ", "<pre>", "#", "%", "!", "{}", "\n\n", "x y", "\r\n", "\r", "a\r\nb", "\x85", "\x0c", "\x1c", "\r\r\n"]),
         st.text(st.characters(exclude_categories=("Cs",)), min_size=1, max_size=4),
     )
     return st.lists(frag, min_size=1, max_size=4).map(lambda fs: sanitize_text("".join(fs)))
@@ -890,3 +890,56 @@ def dirs_case_strategy(draw, profile="c19", pools=None):
     }
     return {"files": files, "loader": loader, "profile": profile, "tagstyle": draw(st.integers(0, 2)),
             "mutation": None, "history": history}
+
+
+# ----------------------------------------------------------- deterministic nesting family (C19/C20)
+def nest_layouts(e, settings, stride=3):
+    """Composition nested two and three levels deep through a loader, every file with a DIFFERENT
+    autoescape policy and an expression after every inner construct returns.  e = five expression
+    sources; settings = names to permute.  Yields lists of file descriptions."""
+    import itertools
+
+    def ex(i):
+        return ["expr", e[i % len(e)], 0]
+
+    def au(p):
+        return ["autoescape", p]
+
+    layouts = []
+    # L1: include in include (+ the same through a loop and an apply)
+    layouts.append(lambda p: [
+        {"name": "page.txt", "extends": None, "body": [au(p[0]), ex(0), ["include", "inc.txt", 0], ex(1)]},
+        {"name": "inc.txt", "extends": None, "body": [au(p[1]), ex(2), ["include", "sub/deep/leaf.txt", 1], ex(3)]},
+        {"name": "sub/deep/leaf.txt", "extends": None, "body": [au(p[2]), ex(4)]},
+    ])
+    layouts.append(lambda p: [
+        {"name": "page.txt", "extends": None, "body": [au(p[0]), ["for", "i0 in range(2)", [["include", "sub/inc.txt", 0], ex(1)], None], ex(0)]},
+        {"name": "sub/inc.txt", "extends": None, "body": [ex(2), ["apply", "ident", [["include", "deep/leaf.txt", 2], ex(3)]], ex(4), au(p[1])]},
+        {"name": "sub/deep/leaf.txt", "extends": None, "body": [ex(4), au(p[2])]},
+    ])
+    # L2: three-level extends chain, include inside the innermost overriding block
+    layouts.append(lambda p: [
+        {"name": "page.txt", "extends": ["base.txt", 0, 0], "body": [au(p[2]), ["block", "b1", [ex(4), ["include", "inc.txt", 0], ex(0)]]]},
+        {"name": "base.txt", "extends": ["root.txt", 1, 0], "body": [au(p[1]), ["block", "b0", [ex(2), ["block", "b1", [["text", "m"]]], ex(3)]]]},
+        {"name": "root.txt", "extends": None, "body": [au(p[0]), ex(0), ["block", "b0", [["text", "r"]]], ex(1)]},
+        {"name": "inc.txt", "extends": None, "body": [au(p[3]), ex(1)]},
+    ])
+    # L3: two-level extends, include in the overriding block, include in that include
+    layouts.append(lambda p: [
+        {"name": "sub/page.txt", "extends": ["../base.txt", 0, 0], "body": [au(p[1]), ["block", "b0", [ex(2), ["include", "inc.txt", 0], ex(3)]]]},
+        {"name": "base.txt", "extends": None, "body": [au(p[0]), ex(0), ["block", "b0", []], ex(1)]},
+        {"name": "sub/inc.txt", "extends": None, "body": [au(p[2]), ex(4), ["include", "deep/leaf.txt", 0], ex(0)]},
+        {"name": "sub/deep/leaf.txt", "extends": None, "body": [au(p[3]), ex(1)]},
+    ])
+    # L4: block of the parent (not overridden) containing an include, after which the parent goes on
+    layouts.append(lambda p: [
+        {"name": "page.txt", "extends": ["base.txt", 0, 0], "body": [au(p[1]), ["block", "b1", [ex(3)]]]},
+        {"name": "base.txt", "extends": None, "body": [au(p[0]), ["block", "b0", [["include", "inc.txt", 0], ex(0)]], ex(1),
+                                                       ["block", "b1", []], ex(2)]},
+        {"name": "inc.txt", "extends": None, "body": [au(p[2]), ["include", "leaf.txt", 0], ex(4)]},
+        {"name": "leaf.txt", "extends": None, "body": [au(p[3]), ex(2)]},
+    ])
+    perms = list(itertools.permutations(settings, 4))
+    for li, lay in enumerate(layouts):
+        for p in perms[li % stride::stride]:
+            yield lay(p)
